@@ -50,13 +50,21 @@ def record_samples(env, f, key, spec):
         f.stationary_point()
     if spec.get('repeat') and not f.reuse_gradient:
         f.oracle(xs[0])
+    if spec.get('fixed'):
+        f.fixed_point()
     return xs
 
 
-def assign(env, f, key, fam):
+def assign(env, f, key, fam, preset=None):
     """give every leaf the value the real member has there"""
     from PEPit import Point
     P, F = {}, {}
+    if preset:
+        for pt, what in preset.items():
+            if what == 'v':
+                # infimal displacement vector of the translation x -> x + b (a = 1): the range of I - T is {-b}
+                env.assume(env.eq(fam.a, 1))
+                P[pt] = [-fam.b]
     cache = {}
     dim = fam.dim
     fns = [f] + ([f.T] if key == 'linop' else [])
@@ -71,6 +79,10 @@ def assign(env, f, key, fam):
                     P[x] = fam.argmin(env)
                 else:
                     P[x] = [env.real("X%s_%d" % (tag, k)) for k in range(dim)]
+                    if g is x:
+                        # fixed point of an operator: the real point satisfies T(x) = x
+                        for a_, b_ in zip(fam.grad(P[x], env, tag), P[x]):
+                            env.assume(env.eq(a_, b_))
             xv = P[x]
             if stationary:
                 val = fam.value_at_min(xv) if hasattr(fam, 'value_at_min') else fam.value(xv)
@@ -116,10 +128,13 @@ def prog(env, case):
     if spec.get('stationary') == 'before':
         f.stationary_point()
     record_samples(env, f, key, spec)
+    vpoint = None
     if key == 'nonexp' and spec.get('with_v'):
-        return "skip"
+        from PEPit import Point
+        vpoint = Point()
+        f.v = vpoint                # infimal displacement vector declared by the user
     f.set_class_constraints()
-    P, F = assign(env, f, key, fam)
+    P, F = assign(env, f, key, fam, preset=({vpoint: 'v'} if vpoint is not None else None))
     tag = "C03:%s:%s" % (key, famname)
     n = 0
     for c in f.list_of_class_constraints:
@@ -190,6 +205,10 @@ def cases(tier):
                 variants.append(dict(N=2, inf=['D' if key == 'indicator' else 'M']))
             if key == 'linop' and tier == 'thorough':
                 variants.append(dict(N=2, NT=2))
+            if key == 'nonexp' and famname == 'affine':
+                variants.append(dict(N=2, with_v=True))
+            if key in ('monotone', 'strmono', 'coco', 'lipop', 'nonexp', 'cocostr', 'lipstr', 'negcomo') and famname == 'affine':
+                variants.append(dict(N=2, fixed=True))
             for vi, spec in enumerate(variants):
                 if spec['N'] == 3 and famname in ('maxaffine', 'interval'):
                     spec = dict(spec)
